@@ -22,7 +22,7 @@ FOREIGN = ['foreign/x', 'tape_recorder_recordingsX/full/a', 'tape_recorder_recor
            'tape_recorder_recordings/a/full_export.tar', 'tape_recorder_recordings/a/metadata_catalog/x',
            'tape_recorder_recordings/full_export.tar', 'tape_recorder_recordings/a/b/fullx', 'tape_recorder_recordings/ab/metadata.json']
 EPOCH = datetime.datetime(1970, 1, 1)
-TIMES = [26909270, 26909290, 26909291, 26910000]   # 2021-02-28 23:50, 2021-03-01 00:10, 00:11, 12:00 (minutes since 1970)
+TIMES = [26909270 * 60, 26909290 * 60, 26909291 * 60 + 1, 26910000 * 60]   # 2021-02-28 23:50, 2021-03-01 00:10, 00:11:01, 12:00 (seconds since 1970)
 BUCKET = 'c15-bucket'
 WRITES = ('create', 'save', 'savecrash')
 OPS = WRITES + ('get', 'getmeta', 'list', 'close', 'exit')
@@ -31,7 +31,7 @@ METADATAS = [None, None, {'m': 1}, {'m': 'x', 'n': [1, 2]}, {}]
 
 
 def day_str(t):
-    return (EPOCH + datetime.timedelta(minutes=t)).strftime('%Y%m%d')
+    return (EPOCH + datetime.timedelta(seconds=t)).strftime('%Y%m%d')
 
 
 def roots(p):
@@ -132,9 +132,9 @@ class C15(Prop):
 
     @staticmethod
     def finish(foreign, cfgs, ops):
-        days = sorted({o['t'] // 1440 for o in ops if 't' in o})
+        days = sorted({o['t'] // 86400 for o in ops if 't' in o})
         return {'foreign': list(foreign), 'cfgs': [dict(c) for c in cfgs],
-                'daytab': [[d, day_str(d * 1440)] for d in days], 'ops': [dict(o) for o in ops]}
+                'daytab': [[d, day_str(d * 86400)] for d in days], 'ops': [dict(o) for o in ops]}
 
     def rand_cfgs(self, rng, first, k8=False):
         if k8:
@@ -389,7 +389,7 @@ class C15(Prop):
         from playback.recordings.memory.memory_recording import MemoryRecording
         mod.datetime = FakeDT
         mod.uuid = FAKE_UUID
-        FakeDT.NOW = EPOCH + datetime.timedelta(minutes=TIMES[0])
+        FakeDT.NOW = EPOCH + datetime.timedelta(seconds=TIMES[0])
         st = fake_s3.store(BUCKET)
         st.clock = lambda: FakeDT.NOW
         for k in case['foreign']:
@@ -405,7 +405,7 @@ class C15(Prop):
             if kind not in OPS:
                 raise ValueError('unknown op %r' % (kind,))
             if 't' in op:
-                FakeDT.NOW = EPOCH + datetime.timedelta(minutes=op['t'])
+                FakeDT.NOW = EPOCH + datetime.timedelta(seconds=op['t'])
             before = dict(st.objects)
             log0 = len(st.log)
             vis_before = self._visible(mod.S3TapeCassette, cfg['p']) if kind in ('save', 'savecrash') else None
